@@ -6,7 +6,7 @@
 EXTENDS Naturals, Integers, Sequences, FiniteSets, Json, IOUtils, TLC, SequencesExt
 CONSTANTS Sample, MaxOff
 Kinds == { <<1, 1>>, <<2, 1>>, <<2, 2>>, <<2, 3>>, <<3, 1>>, <<3, 2>>, <<3, 3>>, <<4, 2>>, <<4, 3>> }
-Decos == { "plain", "softclip", "hardclip", "eqx", "farindel", "nskip", "pair", "pairoverlap" }
+Decos == { "plain", "softclip", "hardclip", "eqx", "farindel", "nskip", "nskipover", "pair", "pairoverlap" }
 Geo == { [kind |-> kl[1], len |-> kl[2], allele |-> a, so |-> so, eo |-> eo, deco |-> d] :
             kl \in Kinds, a \in {0, 1}, so \in (0 - MaxOff)..3, eo \in (0 - 3)..MaxOff, d \in Decos }
 Pick(S) == LET s == SetToSeq(S) IN [i \in 1..(Len(s) \div Sample) |-> s[i * Sample]]
